@@ -200,6 +200,13 @@ def mutants(rng, node, n: int = 3) -> list[tuple[str, ast.AST]]:
             x.id = rng.choice([v for v in NAMES if v != x.id]); kind = "name"
         elif isinstance(x, ast.Attribute):
             x.attr = rng.choice([v for v in ATTRS if v != x.attr]); kind = "attribute"
+        elif isinstance(x, ast.BinOp) and isinstance(x.left, ast.BinOp) and type(x.left.op) is type(x.op) and rng.random() < 0.5:
+            # (a op b) op c  ->  a op (b op c): the same operands in the same order, grouped the other way
+            a_, b_, c_ = x.left.left, x.left.right, x.right
+            x.left, x.right = a_, ast.BinOp(left=b_, op=type(x.op)(), right=c_); kind = "regrouped"
+        elif isinstance(x, ast.BinOp) and isinstance(x.right, ast.BinOp) and type(x.right.op) is type(x.op) and rng.random() < 0.5:
+            a_, b_, c_ = x.left, x.right.left, x.right.right
+            x.left, x.right = ast.BinOp(left=a_, op=type(x.op)(), right=b_), c_; kind = "regrouped"
         elif isinstance(x, ast.BinOp):
             x.op = rng.choice([o for o in BINOPS if not isinstance(x.op, o)])(); kind = "operator"
         elif isinstance(x, ast.BoolOp):
